@@ -202,6 +202,9 @@ pub struct Workload {
     /// 126..130 / 254..258 / 300 small non-reliable packets on the same channel (the datagram
     /// encodings switch at leads of 128 and 256)
     pub lead_pattern_p: f64,
+    /// probability that a burst is 120..300 packets of 0-3 bytes submitted in one instant (more
+    /// datagrams than one data frame can count); 0.4 x lead_pattern_p unless a family sets it
+    pub tiny_burst_p: f64,
 }
 
 impl Workload {
@@ -228,7 +231,14 @@ impl Workload {
             fixed_len: None,
             tiny_mode: r.below(4) as u8,
             lead_pattern_p: if r.chance(0.4) { 0.25 } else { 0.0 },
+            tiny_burst_p: 0.0,
         }
+        .derive()
+    }
+
+    fn derive(mut self) -> Self {
+        self.tiny_burst_p = self.lead_pattern_p * 0.4;
+        self
     }
 
     pub fn pick_mode(&self, r: &mut Rng) -> u8 {
@@ -281,7 +291,7 @@ impl Workload {
                 left = left.saturating_sub(k as u64 + 1);
                 continue;
             }
-            if self.lead_pattern_p > 0.0 && self.fixed_len.is_none() && r.chance(self.lead_pattern_p * 0.4) {
+            if self.tiny_burst_p > 0.0 && self.fixed_len.is_none() && r.chance(self.tiny_burst_p) {
                 // a burst of 120..300 packets of 0-3 bytes in one instant: more datagrams than one
                 // frame can count (127), whatever their size
                 let t = r.range(from_us, until_us.max(from_us));
